@@ -102,7 +102,7 @@ def run(ctx):
         "samples": sorted(shipped)[:3],
     })
     for f in fails[:3]:
-        ctx.violation(f["what"] + (" [" + f["module"] + "]" if "module" in f else ""), dict(kind="c04", **f))
+        ctx.violation(f["what"] + (" [" + f["module"] + "]" if "module" in f else ""), {**f, "check": "c04"})
     if disagreements and not fails:
         ctx.broken.append(f"generator model disagrees with codegen on the pinned definitions: {disagreements[0]}")
 
